@@ -235,6 +235,43 @@ func TestVerifC04Oversized(t *testing.T) {
 			}
 		}
 	}
+	// a function literal whose CAPTURED variable changes width (its own signature, func() int,
+	// stays): no instruction that uses a captured variable prints its type
+	for i, cp := range []struct{ name, old, new, fn, why string }{
+		{"captured-pointer-width", "func Mk(x *int8) func() int { return func() int { return int(*x + *x) } }", "func Mk(x *int16) func() int { return func() int { return int(*x + *x) } }", "Mk$1", "with 100 behind the captured pointer the literal returns -56 in the old version and 200 in the new one"},
+		{"captured-local-width", "func F(a int) int {\n\tc := int8(a)\n\tf := func() int { return int(c + c) }\n\tc++\n\treturn f()\n}", "func F(a int) int {\n\tc := int16(a)\n\tf := func() int { return int(c + c) }\n\tc++\n\treturn f()\n}", "F$1", "F(99): the literal adds 100+100 in int8 (-56) in the old version and in int16 (200) in the new one"},
+		{"captured-signedness", "func F(a int) int {\n\tc := int32(a)\n\tf := func() int { return int(c >> 1) }\n\tc--\n\treturn f()\n}", "func F(a int) int {\n\tc := uint32(a)\n\tf := func() int { return int(c >> 1) }\n\tc--\n\treturn f()\n}", "F$1", "F(0): the literal shifts -1 arithmetically (-1) in the old version and logically (2147483647) in the new one"},
+	} {
+		if !vh.Mine(i) {
+			continue
+		}
+		d := filepath.Join(scratch, "closure-"+cp.name)
+		os.MkdirAll(filepath.Join(d, "o"), 0o755)
+		os.MkdirAll(filepath.Join(d, "n"), 0o755)
+		op, np := filepath.Join(d, "o", "f.go"), filepath.Join(d, "n", "f.go")
+		os.WriteFile(op, []byte("package sample\n\n"+cp.old+"\n"), 0o644)
+		os.WriteFile(np, []byte("package sample\n\n"+cp.new+"\n"), 0o644)
+		out, err := ComputeDiff(RealFileSystem{}, op, np)
+		r.Eval()
+		if err != nil {
+			r.Fail("ComputeDiff(%s): %v", cp.name, err)
+			return
+		}
+		r.Nontrivial("captured-variable/" + cp.name)
+		seen := false
+		for _, fd := range out.Functions {
+			if fd.Function != cp.fn {
+				continue
+			}
+			seen = true
+			if fd.Status == "preserved" {
+				r.Violate("captured-variable/"+cp.name, fmt.Sprintf("%s -> %s: %s, yet sfw diff reports %s as preserved (fingerprint_match=%v)", cp.old, cp.new, cp.why, cp.fn, fd.FingerprintMatch), map[string]interface{}{"pair": cp.name})
+			}
+		}
+		if !seen {
+			r.Note("captured-variable/%s: no entry named %s in the diff", cp.name, cp.fn)
+		}
+	}
 	// a callee swapped for the function of the same NAME in a package of the same NAME at another
 	// import path (two local packages "auth"; math/rand and crypto/rand; text/ and html/template):
 	// the call site reads the same, only the import changes
